@@ -10,6 +10,7 @@ mod c03;
 mod c04;
 mod c05;
 mod c06;
+mod c07;
 mod c19;
 mod prog;
 
@@ -109,6 +110,7 @@ fn main() {
         "c04" => c04::run(&ctx),
         "c05" => c05::run(&ctx),
         "c06" => c06::run(&ctx),
+        "c07" => c07::run(&ctx),
         "c19" => c19::run(&ctx),
         "c19dump" => c19::dump(&ctx),
         _ => {
